@@ -83,6 +83,15 @@ def run(ctx, model_ok, deep=False):
                         ctx.violation("correspondence:cli-exit", "exit status %d for %d failures, model says %s" % (rc, nbad, m), no_input=True)
                 if len(samples) < 3:
                     samples.append({"tool": "jwt-verify", "bad": nbad, "good": ngood, "mode": mode, "status": rc})
+        # ---------------- a failing token among the arguments fails the run, whatever else is on the command line or on stdin ----
+        for argv_, stdin_ in (([bad, "-"], good), ([good, bad, "-"], good), ([bad, "-", good], good), ([bad, good, "-"], good + "\n" + good)):      # a leading "-" means "read stdin" (the rest is then not looked at: usage text)
+            rc, out, err = tool(ctx, "jwt-verify", ["-q", "-k", kf] + argv_, stdin=(stdin_ + "\n").encode())
+            ev += 1
+            distinct.add(("mixed", tuple("b" if a_ == bad else ("g" if a_ == good else a_) for a_ in argv_), rc == 0))
+            if rc == 0:
+                V("falsifier:cli-exit", "jwt-verify given a failing token among its arguments (%s, good tokens on stdin) exited with status 0" % (
+                    " ".join("BAD" if a_ == bad else ("GOOD" if a_ == good else a_) for a_ in argv_)),
+                  ["# jwt-verify -q -k oct.json " + " ".join("BAD" if a_ == bad else ("GOOD" if a_ == good else a_) for a_ in argv_) + "  < good tokens"])
         # ---------------- token length: arguments and standard input must agree -----------------------
         for size in ((100, 4000, 8150, 8185, 8200, 12000, 16384, 70000) if tier == "quick" else (100, 1000, 4000, 8100, 8150, 8180, 8185, 8190, 8195, 8200, 9000, 12000, 16384, 32768, 70000, 300000)):
             m2 = S.seg({"alg": "HS256"}) + b"." + S.seg({"sub": "cli", "pad": "x" * size})
